@@ -46,6 +46,17 @@ func Catalogue(prop, tier string) []Cfg {
 		add(c)
 		// simple v1
 		add(pc("s1", []uint{2, 1}, 2, "fair", []int{2}, []int{1, 1}, "", ""))
+		// key-mode cross-checks: a history-keyed exploration cut at depth Cross must
+		// reach no monitor state that the state-keyed exploration misses
+		for _, x := range []Cfg{
+			pc("v2", []uint{2, 1}, 2, "fair", []int{2}, []int{2}, "rr", ""),
+			pc("v2", []uint{2, 1}, 2, "rate", []int{0, 1}, []int{1, 1}, "pool", ""),
+			pc("v1", []uint{2, 1}, 2, "fair", []int{1}, []int{1}, "pool", ""),
+			pc("s2", []uint{2, 1}, 2, "fair", []int{1}, []int{1}, "", ""),
+		} {
+			x.Cross = 40
+			add(x)
+		}
 		if !quick {
 			add(pc("v2", []uint{3, 2, 1}, 3, "fair", []int{2}, []int{2}, "rr", ""))
 			add(pc("v2", []uint{3, 2, 1}, 6, "rate", []int{3}, []int{3, 2, 1}, "rr", "preclosed"))
@@ -467,6 +478,12 @@ func Catalogue(prop, tier string) []Cfg {
 					}
 				}
 			}
+			x := Cfg{Harness: "join", Disc: disc, J: 2, Cap: []int{1}, N: []int{4}, Timeout: 4, Pauses: []int64{0, 5}, Delays: []int64{0, 2}, Bound: -1, Cross: 60}
+			if disc == "unite2" {
+				x.Lens = []int{0, 1, 2, 3}
+				x.N = []int{3}
+			}
+			add(x)
 			// timed: timeouts fire while the consumer is slow / the output buffer is full
 			for _, nocopy := range []bool{false, true} {
 				c := Cfg{Harness: "join", Disc: disc, J: 3, NoCopy: nocopy, Cap: []int{0}, N: []int{5}, Timeout: 4, Inacc: 25, Pauses: []int64{0, 5}, Delays: []int64{0, 9}, Bound: -1}
